@@ -349,5 +349,17 @@ func gen(g *core.G) {
 		g.Emit("@common " + x + " " + s(lg.Ty(1)))
 		g.Emit("@ptype (a (t " + x + "))")
 	}
+	// ---- (2'') types given as TEXT in every parameter form of the creators: generalisation and common type of what they denote
+	spells := lg.Spellings(px.CurrentContext(), 200*g.Scale)
+	for i, sc := range spells {
+		ta := lat.Txt(sc.Text).String()
+		g.Emit("gen " + ta)
+		o := spells[(i*7+3)%len(spells)]
+		g.Emit("common " + ta + " " + lat.Txt(o.Text).String())
+		if w, ok := lg.Witness(sc.Ty); ok {
+			g.Emit("infer " + ta + " " + w.String())
+		}
+	}
+
 	lat.GenTier2(g.Emit, g.Rng, "C04")
 }
